@@ -374,6 +374,41 @@ func c07Run(c *fw.Ctx, b fw.Batch) {
 			}
 			x[off] = 'x'
 		}
+	case "utf16-like":
+		// ASCII characters alternating with NUL bytes (UTF-16 without a byte-order mark): the NULs are
+		// binary data bytes, there is no BOM
+		for _, n := range []int{4, 16, 32, 33, 64, 200, 2000} {
+			for _, be := range []bool{false, true} {
+				x := make([]byte, 0, 2*n)
+				for i := 0; i < n; i++ {
+					ch := "plain ascii text in sixteen bit units\n"[i%38]
+					if be {
+						x = append(x, 0, ch)
+					} else {
+						x = append(x, ch, 0)
+					}
+				}
+				for _, l := range []uint32{0, 40, 64, 65, 3072, uint32(len(x))} {
+					c07Judge(c, "utf16-like", x, l, "Detect", fmt.Sprintf("utf16|%d|%v|%d", n, be, l))
+					c07Judge(c, "utf16-like", x, l, "DetectReader", "")
+				}
+			}
+		}
+		// files whose NAME suggests text while the content is binary (and the reverse)
+		dir, err := os.MkdirTemp("", "verif-c07-")
+		if err != nil {
+			panic("verif harness: " + err.Error())
+		}
+		defer os.RemoveAll(dir)
+		for _, name := range []string{"notes.txt", "page.html", "table.csv", "config.json", "run.py", "doc.xml", "README", "a.tsv", "x.TXT", "archive.zip", "photo.png"} {
+			for _, content := range [][]byte{{0x00, 0x01, 0x02, 0x03, 0x04}, []byte("\x00\x00\x00\x00unknown binary\x1a\x1f"), []byte("just text"), {}} {
+				f := filepath.Join(dir, name)
+				if os.WriteFile(f, content, 0o600) != nil {
+					continue
+				}
+				c07File(c, f)
+			}
+		}
 	case "pre-read":
 		for _, x := range [][]byte{[]byte("plain text"), []byte("text with \x00 inside"), {}, []byte("\xef\xbb\xbfbom\x00"), []byte("{\"a\":1}"), {0x00}, []byte("x")} {
 			for _, l := range []uint32{0, 3072, 4, uint32(len(x))} {
@@ -469,6 +504,7 @@ func init() {
 			bs = append(bs, batches("readers", 1, 0, 900)...)
 			bs = append(bs, batches("counts", 1, 0, 900)...)
 			bs = append(bs, batches("pre-read", 1, 0, 900)...)
+			bs = append(bs, batches("utf16-like", 1, 0, 900)...)
 			n := 100000
 			if tier == "thorough" {
 				n = 15000000
